@@ -42,6 +42,11 @@ Proof. exact hashString_eq. Qed.
 Theorem C16_xxh64Avalanche_below_2_33 : forall x, 0 <= x < 8589934592 -> xxh64Avalanche x = avalanche64 x.
 Proof. exact xxh64Avalanche_eq. Qed.
 
+(* XXH3 identity used as the reference for inputs too long to evaluate inside Coq (harness stream "> 2GiB"):
+   beyond 240 bytes the 64-bit digest is the low half of the 128-bit digest *)
+Theorem C16_long_low64 : forall data, 240 < Z.of_nat (length data) -> snd (Spec.xxh3_128 data) = Spec.xxh3_64 data.
+Proof. exact long_low64. Qed.
+
 (* non-vacuity: concrete inputs of three classes with the digests printed by the Go code; a load outside a
    concrete slice is None *)
 Example C16_nonvacuous :
@@ -63,3 +68,4 @@ Print Assumptions C16_hash_total.
 Print Assumptions C16_read_outside.
 Print Assumptions C16_hashString.
 Print Assumptions C16_xxh64Avalanche_below_2_33.
+Print Assumptions C16_long_low64.
